@@ -339,6 +339,12 @@ def check(spec, ctx):
     if not geoms and not np.all(got == fill):
         ctx.fail("no geometries but some cells differ from fill", spec, got.tolist(), fill, kind="fill")
 
+    # the same call written positionally (documented order: geometries, array, values, fill, dtype) and with a tuple of geometries
+    pos_args = [kw["values"] if "values" in kw else 1, kw["fill"], kw["dtype"]]
+    res_p = rasterize(geoms, arr, *pos_args, all_touched=spec["all_touched"]).transpose("time", "frequency").values
+    res_t = rasterize(tuple(geoms), arr, **kw).transpose("time", "frequency").values
+    if not np.array_equal(res_p, got) or not np.array_equal(res_t, got):
+        ctx.fail("rasterize written positionally / with a tuple of geometries differs from the keyword call on a list", spec, None, None, kind="call_style")
     # omitted arguments mean the documented defaults: values=1, fill=0, dtype=float32, all_touched=False
     if geoms:
         d_out = rasterize(geoms, arr)
